@@ -106,10 +106,31 @@ def corpus(tier: str) -> List[Tuple[str, bytes]]:
 
 
 class Lst:
-    def __init__(self) -> None:
-        self.added: List[str] = []
+    """Browser listener that, like an application would, looks every reported instance up."""
 
-    def add_service(self, zc: Any, t: str, n: str) -> None: self.added.append(n)
+    def __init__(self, w: Optional[World] = None) -> None:
+        self.added: List[str] = []
+        self.w = w
+        self.lookup_errors: List[str] = []
+
+    def add_service(self, zc: Any, t: str, n: str) -> None:
+        self.added.append(n)
+        if self.w is None:
+            return
+        from zeroconf import BadTypeInNameException
+        from zeroconf.asyncio import AsyncServiceInfo
+
+        async def look() -> None:
+            try:
+                info = AsyncServiceInfo(t, n)
+            except BadTypeInNameException:
+                return  # the documented refusal of a name that is not a service instance name
+            try:
+                await info.async_request(zc, 1500)
+            except Exception as e:  # noqa: BLE001
+                self.lookup_errors.append(f"lookup of {n!r} raised {type(e).__name__}: {e}")
+
+        self.w.spawn(look())
     def remove_service(self, zc: Any, t: str, n: str) -> None: pass
     def update_service(self, zc: Any, t: str, n: str) -> None: pass
 
@@ -120,7 +141,7 @@ def busy_world(w: World) -> Tuple[Any, Lst]:
     host = w.new_zeroconf(mode="dual")
     register(w, host, make_info(S1))
     register(w, host, make_info(S2))
-    lst = Lst()
+    lst = Lst(w)
     AsyncServiceBrowser(host.zc, ["_c._tcp.local.", TB], listener=lst)
     w.advance(1500)
 
@@ -158,6 +179,8 @@ def canary(w: World, host: Any, lst: Lst, problems: List[str]) -> None:
         problems.append("canary: a well-formed query sent afterwards was not answered within 2 s")
     if CANARY_INST not in lst.added:
         problems.append("canary: an announcement sent afterwards did not reach the browser")
+    if lst.lookup_errors:
+        problems.append(f"exception: {lst.lookup_errors[0][:300]}")
 
 
 def cache_fingerprint(zc: Any) -> Any:
